@@ -21,6 +21,7 @@ type AV struct {
 	C    constant.Value
 	Sym  string
 	Neg  bool // for sym: arithmetic negation
+	Off  int64 // for sym: a constant added to it (i+1)
 	Tup  []AV
 	Fn   *ssa.Function // Kind "func": a decided function value
 	// Kind "struct": field path (".f0", ".f1.f0") -> value
@@ -60,6 +61,11 @@ type decideRun struct {
 	trace  []ssa.Instruction
 	// allocs (root run only): the objects whose addresses were handed out as "alloc:<ptr>" values
 	allocs map[string]*ssa.Alloc
+	// iteration mode (DecideIteration): start at the loop header; stop when it is entered again or left
+	iterHeader *ssa.BasicBlock
+	iterLoop   map[*ssa.BasicBlock]bool
+	iterNext   map[*ssa.Phi]AV // value of each header phi on the back edge taken
+	iterExited bool
 	// eventsOnly: the caller wants the executed calls, not the results (DecideCalls)
 	eventsOnly bool
 	// parent / argVals: for a helper run, the run that called it and the caller's value bound to each parameter
@@ -279,6 +285,22 @@ func (r *decideRun) eval1(v ssa.Value) AV {
 		if a.Kind == "sym" && b.Kind == "sym" && decideSymCompare != nil {
 			if res, ok := decideSymCompare(a, b, x.Op); ok {
 				return avBool(res)
+			}
+		}
+		// a symbol moved by a constant (loop indexes: i+1, i-1)
+		if (x.Op == token.ADD || x.Op == token.SUB) && a.Kind == "sym" && !a.Neg && b.Kind == "const" && b.C.Kind() == constant.Int {
+			if k, exact := constant.Int64Val(b.C); exact {
+				if x.Op == token.SUB {
+					k = -k
+				}
+				a.Off += k
+				return a
+			}
+		}
+		if x.Op == token.ADD && b.Kind == "sym" && !b.Neg && a.Kind == "const" && a.C.Kind() == constant.Int {
+			if k, exact := constant.Int64Val(a.C); exact {
+				b.Off += k
+				return b
 			}
 		}
 		if x.Op == token.SUB && a.Kind == "const" && constant.Sign(a.C) == 0 && b.Kind == "sym" {
@@ -548,7 +570,7 @@ func avEqual(a, b AV) (bool, bool) {
 		return constant.Compare(a.C, token.EQL, b.C), true
 	}
 	if a.Kind == "sym" && b.Kind == "sym" && a.Sym == b.Sym && a.Neg == b.Neg {
-		return true, true
+		return a.Off == b.Off, true
 	}
 	return false, false
 }
@@ -565,8 +587,35 @@ func (r *decideRun) run() ([]AV, string) {
 		return nil, "no body"
 	}
 	r.cur = fn.Blocks[0]
+	if r.iterHeader != nil {
+		r.cur = r.iterHeader
+	}
 	visited := map[*ssa.BasicBlock]bool{}
 	for r.steps = 0; r.steps < 500; r.steps++ {
+		if r.iterHeader != nil && r.steps > 0 {
+			if r.cur == r.iterHeader {
+				// one iteration done: the values the header phis take on the back edge
+				r.iterNext = map[*ssa.Phi]AV{}
+				for _, in := range r.cur.Instrs {
+					phi, ok := in.(*ssa.Phi)
+					if !ok {
+						break
+					}
+					for i, p := range phi.Block().Preds {
+						if p == r.pred {
+							saved := r.err
+							r.iterNext[phi] = r.eval(phi.Edges[i])
+							r.err = saved
+						}
+					}
+				}
+				return nil, ""
+			}
+			if !r.iterLoop[r.cur] {
+				r.iterExited = true
+				return nil, ""
+			}
+		}
 		if visited[r.cur] {
 			// a new iteration of a loop: everything computed inside it is computed again
 			// (phis of the header are re-evaluated below from the values of the back edge, which are
@@ -910,4 +959,68 @@ func DecideObjects(fn *ssa.Function, oracle Oracle) (res []AV, typeOf func(AV) t
 		return out
 	}
 	return
+}
+
+// DecideIteration runs ONE iteration of the loop with the given header (the oracle answers the header's
+// phis, e.g. the index as a symbol) and reports the calls selected by want, the value every header phi takes
+// on the back edge, and whether the loop was left instead.
+func DecideIteration(fn *ssa.Function, l *Loop, oracle Oracle, want func(ssa.CallInstruction) bool) (evs []CallEvent, next map[*ssa.Phi]AV, exited bool, err string) {
+	r := &decideRun{fn: fn, oracle: oracle, memo: map[ssa.Value]AV{}, eventsOnly: true, iterHeader: l.Header, iterLoop: l.Blocks}
+	r.onCall = func(ci ssa.CallInstruction) {
+		if !want(ci) {
+			return
+		}
+		ev := CallEvent{Call: ci}
+		saved := r.err
+		for _, a := range ci.Common().Args {
+			// append(buf, x, y): the elements, not the temporary array they travel in
+			if sl, isSl := a.(*ssa.Slice); isSl {
+				if arr, isArr := sl.X.(*ssa.Alloc); isArr {
+					if elems := arrayLiteralElems(arr); elems != nil {
+						for _, e := range elems {
+							ev.Args = append(ev.Args, r.eval(e))
+						}
+						continue
+					}
+				}
+			}
+			ev.Args = append(ev.Args, r.eval(a))
+		}
+		r.err = saved
+		evs = append(evs, ev)
+	}
+	_, err = r.run()
+	return evs, r.iterNext, r.iterExited, err
+}
+
+// arrayLiteralElems: the values stored, by constant index, into a local array that is only used as the
+// carrier of a variadic argument list.
+func arrayLiteralElems(arr *ssa.Alloc) []ssa.Value {
+	at, ok := derefType(arr.Type()).Underlying().(*types.Array)
+	if !ok || at.Len() > 16 {
+		return nil
+	}
+	out := make([]ssa.Value, at.Len())
+	for _, r := range *arr.Referrers() {
+		ia, isIA := r.(*ssa.IndexAddr)
+		if !isIA {
+			continue
+		}
+		k, isK := ia.Index.(*ssa.Const)
+		if !isK || k.Value == nil {
+			return nil
+		}
+		i, _ := constant.Int64Val(k.Value)
+		for _, ir := range *ia.Referrers() {
+			if st, isSt := ir.(*ssa.Store); isSt && st.Addr == ssa.Value(ia) && i >= 0 && i < int64(len(out)) {
+				out[i] = st.Val
+			}
+		}
+	}
+	for _, v := range out {
+		if v == nil {
+			return nil
+		}
+	}
+	return out
 }
